@@ -56,7 +56,9 @@ func c03Inputs(k Kind) []any {
 		"2024-01-02T03:04:05Z", "2024-01-02T03:04:05+02:00", "2024-01-02", "02/01/2024", "2024-01-02 03:04", 1700000000, int64(1700000000), 1.7e9,
 		time.Date(2024, 5, 6, 7, 8, 9, 0, time.UTC), []byte("hi"), []any{"x"}, map[string]any{"a": 1}, uint(3), "1e3", " 5 ", "+5", "5.0", "x y",
 		// text that is not valid UTF-8 (Latin-1 bytes, a truncated rune) and text with control bytes: a string is its bytes
-		"caf\xe9", "\xe2\x82", "a\x00b", "tab\there"}
+		"caf\xe9", "\xe2\x82", "a\x00b", "tab\there",
+		// single-precision and double-precision values that are not dyadic fractions, and large magnitudes (their %v text is the shortest that round-trips at their own precision)
+		float32(0.1), float32(19.99), float32(1e10), float32(16777217), 0.1, 19.99, 1e21, 123456789.125}
 	return common
 }
 
